@@ -349,14 +349,16 @@ def configs(tier):
                    ("twopaths", ["w"]), ("subset", ["x"])):
         for dest in ("base", "local"):
             for index in (False, True):
-                yield {"scenario": s, "dest": dest, "index": index, "request": "closed",
-                       "initial": "empty", "corrupt": bad}
+                for request in ("closed", "expanded"):
+                    yield {"scenario": s, "dest": dest, "index": index, "request": request,
+                           "initial": "empty", "corrupt": bad}
     # a listed file is missing from the source as well (cannot be delivered at all)
     for s, gone in (("one", ["y"]), ("sharing", ["y"]), ("sharing", ["x"]), ("three", ["z"])):
         for dest in ("base", "local"):
             for index in (False, True):
-                yield {"scenario": s, "dest": dest, "index": index, "request": "closed",
-                       "initial": "empty", "src_missing": gone}
+                for request in ("closed", "expanded"):
+                    yield {"scenario": s, "dest": dest, "index": index, "request": request,
+                           "initial": "empty", "src_missing": gone}
 
 
 def run(ctx):
